@@ -126,7 +126,7 @@ def run(ctx):
         ctx.nontriv(("bloom", size, nf))
     byid = {c["id"]: c for c in cases}
     ctx.sample({k: v for k, v in cases[3].items() if k in ("id", "kind", "msg", "out")})
-    bad = ctx.validate("filters/C18Cases.tla", [{k: v for k, v in c.items() if k not in ("n", "collision")} for c in cases], "C18Cases.cfg", timeout=3000, per_shard_min=12)
+    bad = ctx.validate("filters/C18Cases.tla", [{k: v for k, v in c.items() if k not in ("n", "collision")} for c in cases], "C18Cases.cfg", timeout=7200, per_shard_min=12)
     for cid, why in bad.items():
         c = byid[cid]
         cls = ("collision" if c.get("collision") else "n=%s" % c.get("n")) if c["kind"] == "member" else (str(len(c["msg"])) if c["kind"] == "sip" and len(c["msg"]) > 70 else "")
